@@ -4,6 +4,7 @@ the DIRECTED closed tour a₀ → a₁ → … → a_{n-1} → a₀ over the (as
 action list and every matrix (no symmetry, no zero diagonal, no triangle inequality needed).
 -/
 import Rl4co.Env.Atsp
+import Rl4co.Proofs.TspfamParams
 import Rl4co.Spec.Atsp
 
 namespace Rl4co.Atsp
@@ -11,7 +12,7 @@ namespace Rl4co.Atsp
 /-- **C03 (ATSP).** -/
 theorem reward_eq_objective (i : Inst) (as : List Nat) :
     reward i as = - Spec.Atsp.objective i.M as := by
-  simp only [reward, Spec.Atsp.objective, ← rollLen_eq_closedLen, rollLen]
+  simp only [reward_eq, Spec.Atsp.objective, ← rollLen_eq_closedLen, rollLen]
 
 /-- Direction matters and is the right one: on `M a b = 10·a + b` the tour 2 → 0 → 1 → 2 costs
 `M 2 0 + M 0 1 + M 1 2 = 20 + 1 + 12`, not the reversed `M 0 2 + M 1 0 + M 2 1 = 2 + 10 + 21`. -/
